@@ -247,8 +247,15 @@ struct ReluctantRepeatIterator<'a> {
     operation: &'a Operation,
     min: usize,
     max: usize,
-    counter: usize,
-    position: Option<usize>,
+    // where the repetition starts
+    start: usize,
+    // one iterator per iteration taken so far
+    iterators: Vec<Box<dyn Iterator<Item = usize> + 'a>>,
+    // the end position of each of those iterations
+    positions: Vec<usize>,
+    started: bool,
+    // whether to try one more iteration before looking for alternatives
+    descend: bool,
 }
 
 impl<'a> ReluctantRepeatIterator<'a> {
@@ -264,8 +271,11 @@ impl<'a> ReluctantRepeatIterator<'a> {
             operation,
             min,
             max,
-            counter: 0,
-            position: Some(position),
+            start: position,
+            iterators: Vec::new(),
+            positions: Vec::new(),
+            started: false,
+            descend: false,
         }
     }
 }
@@ -273,32 +283,52 @@ impl<'a> ReluctantRepeatIterator<'a> {
 impl Iterator for ReluctantRepeatIterator<'_> {
     type Item = usize;
 
+    // Fewest iterations first: report the current position, then try one more
+    // iteration from there, and when an iteration has no (further) match fall
+    // back to the next match of the iteration before it.
     fn next(&mut self) -> Option<Self::Item> {
         #[cfg(regexml_verif)]
         crate::verif::tick(12);
+        if !self.started {
+            self.started = true;
+            self.descend = true;
+            if self.min == 0 {
+                return Some(self.start);
+            }
+        }
         loop {
             #[cfg(regexml_verif)]
             crate::verif::tick(13);
-            if let Some(position) = self.position {
-                let mut it = self.operation.matches_iter(self.matcher, position);
-                if let Some(position) = it.next() {
-                    self.counter += 1;
-                    if self.counter > self.max {
-                        self.position = None;
-                    } else {
-                        self.position = Some(position);
-                    }
-                }
-            } else if self.min == 0 && self.counter == 0 {
-                self.counter += 1;
-            } else {
-                self.position = None;
+            if self.descend && self.iterators.len() < self.max {
+                let current = self.positions.last().copied().unwrap_or(self.start);
+                self.iterators
+                    .push(self.operation.matches_iter(self.matcher, current));
+                self.positions.push(current);
             }
-            if self.counter >= self.min || self.position.is_none() {
-                break;
+            self.descend = false;
+            let depth = self.iterators.len();
+            let top = self.iterators.last_mut()?;
+            if let Some(p) = top.next() {
+                let from = if depth >= 2 {
+                    self.positions[depth - 2]
+                } else {
+                    self.start
+                };
+                if p == from && depth > self.min {
+                    // an iteration beyond the minimum that consumes nothing
+                    // cannot contribute a new match
+                    continue;
+                }
+                self.positions[depth - 1] = p;
+                self.descend = true;
+                if depth >= self.min {
+                    return Some(p);
+                }
+            } else {
+                self.iterators.pop();
+                self.positions.pop();
             }
         }
-        self.position
     }
 }
 
